@@ -202,6 +202,29 @@ func RunC20(c *mc.Ctx) {
 		})
 	}
 
+	// ---- bloom: a filter with EIGHT hash functions and 20..40-byte items (every item of the alphabet
+	// except "y"): all unordered pairs of 1-2 op programs over a 6-op sub-alphabet
+	{
+		sub8 := []string{"Add:x", "AddHash", "AddOutPoint", "Matches:x", "MatchesOutPoint", "Reload"}
+		p8 := programs(sub8, 2)
+		var c8 []*BloomConfig
+		for i := range p8 {
+			for j := i; j < len(p8); j++ {
+				if c.Quick() && len(p8[i]) == 2 && len(p8[j]) == 2 {
+					continue // quick: a 2-op program against every 1-op program; thorough: also 2 against 2
+				}
+				c8 = append(c8, &BloomConfig{Geom: "4x8", Progs: [][]string{p8[i], p8[j]}})
+			}
+		}
+		if onlyBig {
+			c8 = nil
+		}
+		c.Space("bloom: 8 hash functions: unordered pairs of programs over a 6-op sub-alphabet", int64(len(c8)))
+		c.ParFor(int64(len(c8)), func(w *mc.W, i int64) {
+			exploreCase(c, w, c20Case{Kind: "bloom", Bloom: c8[i], Bound: 2}, 200000)
+		})
+	}
+
 	// ---- bloom: two filters, each used by its own goroutine.  The statement's data-race freedom is
 	// about executions, and the per-filter mutex protects only what belongs to one filter: state the
 	// package shares between ALL filters (a scratch buffer, a pool, a table filled lazily) is reached
